@@ -18,7 +18,7 @@ func bundle(parts ...[]Rule) []Rule {
 // once-only wrapper so that a rule listed twice (directly and through a bundle) runs once per check
 func dedupe(rs []Rule) []Rule { return rs }
 
-var challengeScalarDeps = []Rule{RuleG6, RuleD9([][4]string{{"bandersnatch/fr", "Element", "SetBytesLE", "z"}, {"bandersnatch/fr", "Element", "SetBigInt", "z"}}), RuleK4}
+var challengeScalarDeps = []Rule{RuleG6, RuleD10, RuleD9([][4]string{{"bandersnatch/fr", "Element", "SetBytesLE", "z"}, {"bandersnatch/fr", "Element", "SetBigInt", "z"}}), RuleK4}
 var bvectorDeps = []Rule{RuleD4("bvector"), RuleB1, RuleO1}
 
 // the precomputed barycentric tables that DivideOnDomain and the out-of-domain b-vector read
@@ -47,8 +47,8 @@ var decoderFns = [][3]string{{"banderwagon", "Element", "setBytes"}, {"banderwag
 func init() {
 	Props["C12"] = spec("static decision of the structural clauses of concurrent use (DESIGN 4 C12).",
 		RuleG1, RuleG2, RuleG3, RuleG4, RuleG5, RuleG6, RuleG7, RuleG8, RuleW1(nil, 90), RuleW2(30), RuleW3)
-	Props["C20"] = spec("static decision of the synchronisation clauses of the executor only (DESIGN 4 C20): Add before each spawn, one spawn per iteration, work called exactly once with per-iteration range cells, Done after work, Wait post-dominating entry (G7), no parent store to captured cells (G5), callers size result channels by the same value they pass as the worker limit (G3). The range arithmetic (disjoint cover of [0,n), at most min(n,m) invocations) is NOT decided.",
-		RuleG7, RuleG5, RuleG3)
+	Props["C20"] = spec("static decision of the synchronisation clauses of the executor only (DESIGN 4 C20): Add before each spawn, one spawn per iteration, work called exactly once with per-iteration range cells, Done after work, Wait post-dominating entry (G7), no parent store to captured cells (G5), callers size result channels by the same value they pass as the worker limit (G3). Of the range arithmetic only non-emptiness is decided: a difference-bound analysis shows end - start >= 1 for every range handed to work (I1). Disjoint cover of [0,n), end <= n and at most min(n,m) invocations are NOT decided.",
+		RuleG7, RuleG5, RuleG3, RuleI1)
 	Props["C03"] = spec("static decision of the structural determinism/conformance clauses (DESIGN 4 C03): the IPA vector helpers (V1-V4), the precomputed weight tables (M7), the table-based commitment (M5, M9, K7) and Cmp (O1) as shared mechanisms; Fiat-Shamir labels and absorb order equal the specification on both sides (F1,F2), openings absorbed with their own index (F4), canonical encodings absorbed and transcript chaining (F7), serialisation layout D|L|R|a with canonical encoders (D5), results merged in completion order only by commutative-associative combiners, every worker result merged exactly once (G4,G2,G3), no call writes state a later call reads (W2,W3). Byte-for-byte equality with an independent implementation is not decided.",
 		bundle([]Rule{RuleF1F2(), RuleF4(), RuleF7, RuleD5, RuleG4, RuleG2, RuleG3, RuleW2(30), RuleW3, RulePW, RuleG1In("BatchNormalize", 1), RuleU1, RuleW1(nameHas("banderwagon.BatchNormalize", "multiproof.CreateMultiProof"), 3), RuleW4}, challengeScalarDeps, bvectorDeps, weightsDeps, vectorDeps, commitDeps)...)
 	Props["C01"] = spec("static decision of the structural completeness clauses (DESIGN 4 C01): the IPA vector helpers (V1-V4), the precomputed weight tables (M7: every position written), the table-based commitment (M5, M9, K7) and Cmp (O1) as shared mechanisms; prover and verifier replay the specified Fiat-Shamir schedule (F1,F2); openings processed as aligned triples with their own index (F4); shape checks dominate (F6); the worker split covers every opening: ceil-division batches, clipped ranges, one receive per worker (S1,G2,G3); every array is indexed by an index of its own domain, in particular the inverse denominators by compacted position (M6). The algebra of the protocol is not decided.",
@@ -62,7 +62,7 @@ func init() {
 	Props["C08"] = spec("static decision of the structural clauses (DESIGN 4 C08): each wrapper delegates to the matching gnark operation on the matching operands, ScalarMul passes the regular-form integer, Sub negates into a private copy (L1); operands are never written, receivers only (W1); Generator/Identity never written and Identity = (0,1,1) (W2,K6); no routine reads an operand coordinate after overwriting the same coordinate of an aliased receiver (W5). The group law itself is not decided.",
 		RuleL1, RuleW5, RuleTrust, RuleW2(30), RuleK6, RuleW1(nameHas("banderwagon.Element).", "bandersnatch.ExtendedAddNormalized", "bandersnatch.PointExtendedNormalized", "bandersnatch.PointExtendedFromProj"), 20))
 	Props["C11"] = spec("static decision of the structural clauses (DESIGN 4 C11): orientation X/Y in both variants, only X and Y of the element are read (no Z, no sign), once each (N1); batch pairs element i with inverse i and output i (U4); both variants convert with fp.BytesLE then fr.SetBytesLE (N2); length mismatch errors before indexing (LG); elements not written (W1). The numeric value and injectivity are not decided.",
-		RuleN1N2, RuleBatchIdx, RuleD9(mapSetters), RuleLG([][4]string{{"banderwagon", "BatchMapToScalarField", "result", "elements"}}), RuleW1(nameHas("MapToScalarField", "mapToBaseField", "fp.BytesLE", "fp.BatchInvert"), 4))
+		RuleN1N2, RuleBatchIdx, RuleD9(mapSetters), RuleD10, RuleLG([][4]string{{"banderwagon", "BatchMapToScalarField", "result", "elements"}}), RuleW1(nameHas("MapToScalarField", "mapToBaseField", "fp.BytesLE", "fp.BatchInvert"), 4))
 	Props["C17"] = spec("static decision of the structural clauses (DESIGN 4 C17): every loop of the square-root code is a counted loop left only through its bound test and every block of the discrete log is accumulated (R1); the addition chain computes z^((Q-1)/2), z^Q, z^((Q+1)/2) for the odd part Q of p-1 and the block parameters are consistent (K5); SqrtPrecomp works on a private copy, returns nil only when the dyadic reconstruction fails and zero for zero; GetPointFromX/computeY propagate nil exactly and return (x, y) (Y2); sign selection correct on all four combinations (D4); curve equation uses A and D in the right places (Y1); arguments not written (W1). The dyadic discrete-log reconstruction (table contents) is not decided.",
 		RuleK5, RuleY1Y2, RuleR1, RuleD4("sign"), RuleG6, RuleW1(nameHas("bandersnatch/fp.", "bandersnatch.GetPointFromX", "bandersnatch.computeY"), 6))
 	Props["C18"] = spec("static decision of the structural clauses (DESIGN 4 C18): writers and readers of the two concatenated tables agree on layout, midpoints and lengths (M7); every index in DivideOnDomain/ComputeBarycentricCoefficients is of the indexed array's domain (M6); sign handling exhaustive and consistent, orientation of numerator and denominator agree (D4 absInt, Q1); self term accumulated only for i != index with the ratio A'(index)/A'(i) and q[i] of the same i (Q2); f and the tables are not written (W1,W3). That the formulas are the polynomial quotient/interpolation and the table contents are not decided.",
@@ -70,15 +70,15 @@ func init() {
 	Props["C19"] = spec("static decision of the structural clauses (DESIGN 4 C19): all-or-nothing normalisation (U1); written elements are the de-duplicated ones, filled from all inputs, inverses paired by index (U2,U4,G1); batch and single encoders agree in sign convention and normalisation (E2,E3), uncompressed layout x@0,y@32 in both and in the trusted decoder (U3); batch and single map-to-field agree (N1,N2); inputs other than the normalised elements not written (W1); executor use joined before return (G2). Value equality position by position is not decided.",
 		RuleU1, RuleU3, RuleE2E3, RuleN1N2, RuleBatchIdx, RuleG1, RuleG2, RuleZ1, RuleW1(nameHas("banderwagon.Batch", "banderwagon.ElementsToBytes", "banderwagon.Element).BytesUncompressedTrusted", "banderwagon.Element).Normalize", "banderwagon.batch"), 8))
 	Props["C09"] = spec("static decision of the structural clauses of the variable-base MSM (DESIGN 4 C09): points and scalars stay paired through every wrapper, split and chunk (M1); Montgomery flag and task count reach the inner routine (M2); every selectable window width has an implementation with matching constants and array sizes (M3); every chunk is produced exactly once and consumed exactly once, chunk j through channel j (M4); bucket/table indexes v-1 are guarded (M5); length mismatch is an error before any slicing (LG); the sizing loop terminates (T1); goroutines write only their own slots, are joined, channels fit (G1-G5); inputs are not written (W1). The bucket arithmetic and digit recoding are not decided.",
-		RuleM1, RuleM1b, RuleM2, RuleM3, RuleM4, RuleM5, RuleM8, RuleM10, RuleT1, RuleLG([][4]string{{"bandersnatch", "MultiExp", "points", "scalars"}, {"ipa", "commit", "groupElements", "polynomial"}}), RuleG1, RuleG2, RuleG3, RuleG4, RuleG5, RuleW1(nameHas("bandersnatch.msm", "bandersnatch.MultiExp", "bandersnatch.partitionScalars", "banderwagon.Element).MultiExp", "ipa.MultiScalar", "ipa.commit", "batchProjToAffine"), 30))
+		RuleM1, RuleM1b, RuleM2, RuleM3, RuleM4, RuleM5, RuleM8, RuleM10, RuleT1, RuleD9(msmOutputs), RuleLG([][4]string{{"bandersnatch", "MultiExp", "points", "scalars"}, {"ipa", "commit", "groupElements", "polynomial"}}), RuleG1, RuleG2, RuleG3, RuleG4, RuleG5, RuleW1(nameHas("bandersnatch.msm", "bandersnatch.MultiExp", "bandersnatch.partitionScalars", "banderwagon.Element).MultiExp", "ipa.MultiScalar", "ipa.commit", "batchProjToAffine"), 30))
 	Props["C15"] = spec("static decision of the structural clauses of scalar-field arithmetic (DESIGN 4 C15): Cmp and Equal read limbs only in same-index comparisons and are right on all 81 limb orderings (O1); every modulus-derived constant equals the value computed from the decimal modulus (K1), limb k meets limb k in every carry chain, cascade and Montgomery round (K2), operands are not written (W1). Numeric correctness of the algorithms is not decided.",
 		RuleK1K2, RuleAsm, RuleZ1, RuleO1, RuleW5, RuleW1(nameHas("bandersnatch/fr."), 40))
 	Props["C06"] = spec("static decision of the decoder's structural clauses (DESIGN 4 C06): no untrusted entry point reaches an unchecked or reducing decoder (D1, D3); on the untrusted path success is dominated by exact length, canonical x, on-curve, subgroup test on the same x, and y-bytes equality (D2); the subgroup decision accepts exactly Legendre=+1 of 1-a*x^2 (D4); errors are propagated (D7); decoders do not write their buffer (W1). Square-root and Legendre arithmetic not decided.",
-		RuleD1, RuleD2D3, RuleD4("legendre"), RuleD9(pointSetters), RuleD7(decoderFns, 6), RuleD8([][3]string{{"banderwagon", "Element", "setBytes"}, {"banderwagon", "Element", "SetBytesUncompressed"}}), RuleW1(nameHas("banderwagon.Element).SetBytes", "banderwagon.Element).setBytes", "common.Read", "subgroupCheck", "GetPointFromX", "computeY", "SqrtPrecomp"), 8))
+		RuleD1, RuleD2D3, RuleD5Point, RuleD4("legendre"), RuleD9(pointSetters), RuleD7(decoderFns, 6), RuleD8([][3]string{{"banderwagon", "Element", "setBytes"}, {"banderwagon", "Element", "SetBytesUncompressed"}}), RuleW1(nameHas("banderwagon.Element).SetBytes", "banderwagon.Element).setBytes", "common.Read", "subgroupCheck", "GetPointFromX", "computeY", "SqrtPrecomp"), 8))
 	Props["C10"] = spec("static decision of the (de)serialisation structure (DESIGN 4 C10): reader and writer agree on field order, counts and encoding kinds and with the protocol constants (D5); every point goes through the validating decoder and the scalar through the canonical one whose decision accepts exactly values < r (D1, D4); the EOF probe constrains the byte count (D6); every error on the read and write paths is tested and returned (D7); Write does not modify the proof (W1). Value-level round trip not decided.",
 		RuleD1, RuleD4("canonical"), RuleD5, RuleD6, RuleG6, RuleD7(serdeFns, 9), RuleD8([][3]string{{"", "MultiProof", "Read"}, {"ipa", "IPAProof", "Read"}}), RuleW1(nameHas("MultiProof).", "IPAProof).", "common.Read"), 8))
 	Props["C16"] = spec("static decision of the scalar-encoding structure (DESIGN 4 C16): no decoder writes the slice it is given (W1); the canonical decoder accepts exactly Cmp(value, r) = -1 on the integer built from the input (D4); SetBigInt's fast path / zero / reduce decision is exhaustive and correct on all 9 outcomes (D4). Mod and Montgomery arithmetic not decided.",
-		RuleW1(nameHas("fr.Element).Set", "fr.Element).set", "common.ReadScalar", "fr.Element).Bytes", "fr.Element).Marshal"), 10), RuleD4("canonical", "setbigint"), RuleD9(frSetters), RuleG6, RuleK4, RuleK1K2, RuleTrust)
+		RuleW1(nameHas("fr.Element).Set", "fr.Element).set", "common.ReadScalar", "fr.Element).Bytes", "fr.Element).Marshal"), 10), RuleD4("canonical", "setbigint"), RuleD9(frSetters), RuleD10, RuleG6, RuleK4, RuleK1K2, RuleTrust)
 	Props["C02"] = spec("static decision of the structural soundness clauses (DESIGN 4 C02): the IPA vector helpers (V1-V4), the verifier-side weight table (M7) and Cmp (O1) as shared mechanisms; accept only from the group-equation comparison (F5), shape checks dominate acceptance and the indexings they protect (F6), every statement/proof component is absorbed with its own index before acceptance (F3,F4), prover/verifier/spec schedules agree (F1,F2), Equal rejects the all-zero pseudo-point on all 16 outcomes (E1,E4). The verification equation itself is not decided.",
 		bundle([]Rule{RuleF1F2(), RuleF3, RuleF4(), RuleF5, RuleF6, RuleF7, RuleE1, RuleK6, RulePW}, challengeScalarDeps, bvectorDeps, []Rule{RuleM7Verifier}, vectorDeps)...)
 	Props["C13"] = spec("static may-write analysis (DESIGN 3.1): for every function of the module, the caller-visible locations it may write are within tables/purity.tsv; globals written only by initialisers; configuration fields only by constructors; commitments only through BatchNormalize. Value-level clause ('Cs stay Equal') not decided.",
